@@ -973,11 +973,15 @@ def _contexts_active_by_referents(frame: types.FrameType, origin: Any) -> List[C
         func = referent.__func__
         name = getattr(func, "__name__", None)
         if name not in ("__exit__", "__aexit__"):
-            tp = type(referent.__self__)
-            if getattr(tp, "__aexit__", None) is func:
-                name = "__aexit__"
-            elif getattr(tp, "__exit__", None) is func:
-                name = "__exit__"
+            # (looked up in the class dictionaries directly: getattr() on the
+            # type could run a metaclass's __getattr__, i.e. the target's code)
+            for klass in type(referent.__self__).__mro__:
+                if klass.__dict__.get("__aexit__") is func:
+                    name = "__aexit__"
+                    break
+                if klass.__dict__.get("__exit__") is func:
+                    name = "__exit__"
+                    break
             else:
                 continue
         ret.append(Context(is_async="a" in name, obj=referent.__self__))
